@@ -205,6 +205,7 @@ dLUMemInit(fact_t fact, void *work, int_t lwork, int m, int n, int_t annz,
     double   *ucol;
     int_t    *usub, *xusub;
     int_t    nzlmax, nzumax, nzlumax;
+    int_t    top1_ptrs = 0; /* stack top after the pointer arrays (USER) */
     
     iword     = sizeof(int);
     dword     = sizeof(double);
@@ -246,6 +247,11 @@ dLUMemInit(fact_t fact, void *work, int_t lwork, int m, int n, int_t annz,
 	    xlsub  = duser_malloc((n+1) * iword, HEAD, Glu);
 	    xlusup = duser_malloc((n+1) * iword, HEAD, Glu);
 	    xusub  = duser_malloc((n+1) * iword, HEAD, Glu);
+	    if ( !xsup || !supno || !xlsub || !xlusup || !xusub ) {
+		/* work[] cannot even hold the pointer arrays */
+		return (dmemory_usage(nzlmax, nzumax, nzlumax, n) + n);
+	    }
+	    top1_ptrs = Glu->stack.top1;
 	}
 
 	lusup = (double *) dexpand( &nzlumax, LUSUP, 0, 0, Glu );
@@ -261,8 +267,9 @@ dLUMemInit(fact_t fact, void *work, int_t lwork, int m, int n, int_t annz,
 		SUPERLU_FREE(lsub); 
 		SUPERLU_FREE(usub);
 	    } else {
-		duser_free((nzlumax+nzumax)*dword+(nzlmax+nzumax)*iword,
-                            HEAD, Glu);
+		/* release whatever part of the four arrays was obtained,
+		   alignment padding included */
+		duser_free(Glu->stack.top1 - top1_ptrs, HEAD, Glu);
 	    }
 	    nzlumax /= 2;
 	    nzumax /= 2;
